@@ -32,9 +32,11 @@ theorem C05_envelope (D : Deps) (cols : List Col) (codec pageSize : Nat) (create
 `PAR1 ++ data ++ footer ++ len ++ PAR1` where the footer is the serialisation of metadata `md`
 whose row groups and column chunks describe consecutive, gap-free, non-overlapping byte ranges
 starting at offset 4 and ending exactly where the footer starts (`GroupsAt md.rowGroups 4`,
-`|data| = Σ total_compressed_size`), the file's `num_rows` is the sum of the row groups' `num_rows`, each row group's `total_compressed_size` and
-`total_byte_size` being the sum of its chunks' sizes and each chunk's `file_offset` (=
-`data_page_offset`) the position of its first byte. -/
+`|data| = Σ total_compressed_size`), the file's `num_rows` is the sum of the row groups' `num_rows`, each row group's
+`total_compressed_size` being the sum of its chunks' `total_compressed_size`, its `total_byte_size` the sum of its chunks'
+`total_uncompressed_size` (parquet.thrift: "Total byte size of all the uncompressed column data in this row group"; after
+fix F23 — the pinned code put the compressed sizes there) and each chunk's `file_offset` (= `data_page_offset`) the position
+of its first byte. -/
 theorem C05_chunks_tile (D : Deps) (cols : List Col) (codec pageSize : Nat) (createdBy : String)
     (ops : List Op)
     (hok : (fileOf D cols codec pageSize createdBy ops).2.getLast? = some .ok) :
@@ -83,7 +85,8 @@ is, row group by row group and chunk by chunk, a concatenation of pages
 lengths of the bytes that follow and of what they decompress from, the CRC in the header is the
 CRC-32 of exactly the stored page bytes, no page is empty; and every chunk's metadata are the sums
 over its pages (`ChunkPages`: `num_values` = Σ rows, `total_compressed_size` = Σ |header ++ stored|,
-`total_uncompressed_size` = Σ |body|, the codec tag is the writer's).  The same metadata `md`
+`total_uncompressed_size` = Σ (|header| + |body|) as parquet.thrift defines it — `sumUsize`, after fix F23; the pinned
+code left the headers out —, the codec tag is the writer's).  The same metadata `md`
 tile the region (`GroupsAt`, as in `C05_chunks_tile`). -/
 theorem C05_pages_chain (D : Deps) (cols : List Col) (codec pageSize : Nat) (createdBy : String)
     (ops : List Op)
